@@ -1,4 +1,5 @@
 """C02 — boolean collision tests (structural clauses)."""
+from . import scopes
 from ..core.report import DOMAIN_D
 from ..rules import nesterov, mink, loops
 
@@ -7,6 +8,7 @@ MODS = ["distance3d.gjk._gjk_jolt", "distance3d.gjk._gjk_libccd", "distance3d.mp
 
 
 def run(idx, rep, tier):
+    rep.set_scope(scopes.scope(idx, "C02"))
     rep.explanation = (
         "Structural necessary conditions shared by the five boolean tests: Minkowski pairing and collider order at every "
         "support site (R-MINK), parallel arrays of MPR / libccd updated together (R-PAR), inflation / support agreement and "
@@ -19,5 +21,5 @@ def run(idx, rep, tier):
     nesterov.r_infl(idx, rep)
     nesterov.r_dispatch(idx, rep)
     nesterov.r_dtree(idx, rep)
-    nesterov.r_tuplerole(idx, rep)
+    nesterov.r_tuplerole(idx, rep, floor=6)
     loops.r_loop(idx, rep, MODS, floor=10)
